@@ -29,6 +29,8 @@ type qKnobs struct {
 	MultiOp      int // number of operations (>=1)
 	MaxFields    int
 	FragSameType bool // named fragments only on the exact object type
+	DirLeafOnly  bool // @skip/@include only on leaf fields other than id
+	NoNestedFrag bool // no fragment spread inside a fragment definition
 }
 
 type GenQuery struct {
@@ -149,6 +151,13 @@ func (g *qGen) alias(t *TypeSpec, fl *FieldSpec) string {
 func (g *qGen) field(t *TypeSpec, fl *FieldSpec, depth int) string {
 	al := g.alias(t, fl)
 	args := g.args(fl)
+	if g.k.DirLeafOnly && (!scalarNames[fl.Type.Named] || fl.Name == "id") {
+		s := al + fl.Name + args
+		if scalarNames[fl.Type.Named] {
+			return s
+		}
+		return s + " " + g.selectionSet(g.f.Type(fl.Type.Named), depth-1)
+	}
 	if al == "" && args != "" && g.pct(85) {
 		// the same field with different arguments must not share a response key
 		g.nalias++
@@ -224,7 +233,12 @@ func (g *qGen) selections(t *TypeSpec, depth int, top bool) []string {
 			g.nfrag++
 			more := ""
 			if g.pct(50) {
+				saved := g.k.NamedFrags
+				if g.k.NoNestedFrag {
+					g.k.NamedFrags = false
+				}
 				more = " " + strings.Join(g.selections(t, depth, false), " ")
+				g.k.NamedFrags = saved
 			}
 			g.frags = append(g.frags, fmt.Sprintf("fragment %s on %s { %s%s }", name, t.Name, one, more))
 			dir := ""
